@@ -51,7 +51,7 @@ def _entry(x):
 
 
 def get_tables(p):
-    return {k: [[_entry(x) for x in getattr(m, a)] for m in p.modules] for k, a in TABLES}
+    return {k: [[_entry(x) for x in getattr(m, a)] for m in p.modules if m is not None] for k, a in TABLES}
 
 
 def set_tables(p, t):
@@ -200,7 +200,10 @@ def save_load(p, variant, sub=()):
     """Save the real project, rewrite the optional SLnK chunks according to the variant through
     the TLV layer, load with the real reader; returns (outcome, loaded project or None)."""
     api, _, _ = _rv()
-    data = p.read()
+    try:
+        data = p.read()
+    except Exception as e:                      # a project that cannot be written is an outcome, not a harness failure
+        return "save-raised:" + type(e).__name__, None
     if variant != "canonical":
         chunks = tlv.split(data)
         out = []
@@ -237,9 +240,12 @@ def mod_idx_of(p, k):
 
 
 # ------------------------------------------------------------------ mode B
-def random_history(ctx, rnd, tid, n, length, classes, p_save=0.0, variants=("canonical",)):
+def random_history(ctx, rnd, tid, n, length, classes, p_save=0.0, variants=("canonical",), trailing=0):
+    """trailing: number of empty module positions appended behind the n modules (a save + load drops them)."""
     api, _, _ = _rv()
     p = make_project(n, rnd, classes)
+    for _ in range(trailing):
+        p.attach_module(None)
     other = api.Project()
     foreign_attached = other.new_module(api.m.Amplifier)
     foreign_free = api.m.Amplifier()
@@ -260,7 +266,9 @@ def random_history(ctx, rnd, tid, n, length, classes, p_save=0.0, variants=("can
             variant = rnd.choice(variants)
             sub = sorted(rnd.sample(range(n), rnd.randrange(n + 1))) if variant == "superset" else []
             out, q = save_load(p, variant, sub)
-            if q is None or len(q.modules) != n:
+            for _ in range(trailing if q is not None and len(q.modules) == n else 0):
+                q.attach_module(None)
+            if q is None or len(q.modules) != n + trailing:
                 events.append({"op": "saveload", "variant": variant, "sub": sub,
                                "outcome": out if q is None else "module-count", "post": get_tables(p)})
                 continue
